@@ -93,6 +93,7 @@ def run(ctx, rep):
     tmp = Report("tmp", "quick")
     c07.w2(F, tmp)
     c07.w2b(ctx, tmp)
+    c07.w6(F, tmp)          # captured padding bits are replayed exactly (non-zero padding is accepted input)
     for o in tmp.obs:
         o.rule = "M6"
         rep.obs.append(o)
